@@ -60,7 +60,7 @@ func outViolation(v *Violation) *ViolationOut {
 
 // InitList is the set of packages whose globals are allocated and whose init functions run.
 var InitList = []string{
-	"context", "io", "internal/oserror", "time",
+	"context", "io", "internal/oserror", "time", "strings",
 	"github.com/pkg/errors", "github.com/cenkalti/backoff/v3", "github.com/sony/gobreaker", "github.com/hashicorp/go-multierror", "github.com/hashicorp/errwrap",
 	ModulePath, ModulePath + "/...",
 }
